@@ -92,6 +92,11 @@ def readTop : Nat → List Bytes → Option Top
     | [] => readTop f rest
     | 33 :: _ => (readTop f rest).map fun t => { t with md := l :: t.md }
     | 100 :: _ =>
+      if (stripPrefix Core3.sDeclare l).isSome then
+        (match Core3.readFunc [l], readTop f rest with
+         | some fn, some t => some { t with funcs := fn :: t.funcs }
+         | _, _ => none)
+      else
       (match splitAtClose (l :: rest) with
        | some (fl, rest') =>
          (match Core3.readFunc fl, readTop f rest' with
